@@ -288,7 +288,8 @@ def run_l2(run, pid, rng, thorough, flags):
     return s
 
 
-def check(run, pid, module, theorems, flags, replay=None):
+def check(run, pid, module, theorems, flags, replay=None, translated=None):
+    """translated: (module, theorems) of the property's theorems about translated source (strengthening tie)"""
     if replay:
         data = json.load(open(replay))
         run.seed = data.get("seed", run.seed)
@@ -296,6 +297,10 @@ def check(run, pid, module, theorems, flags, replay=None):
     rng = random.Random(run.seed)
     thorough = run.tier == "thorough"
     preamble(run, module, theorems)
+    if translated:
+        from . import libcommon
+        libcommon.regen_imp(run)
+        run.prove(translated[0], translated[1], strengthening=True)
     run_l1(run, pid, rng, 3000 if thorough else 240)
     run_l2(run, pid, rng, thorough, flags)
     if replay:
